@@ -257,6 +257,9 @@ func genEPUB(r *hx.Rng) *pkg {
 		decoyOPF = hx.Pick(r, []string{"alt/other.opf", "rendition2.opf"})
 		roots = append([][2]string{{decoyOPF, "application/x-other-package"}}, roots...)
 	}
+	// further renditions / left-over package documents listed AFTER the default rendition
+	// (renditions.go; own stream): they declare nothing
+	alts := p.planRenditions(r.Fork(0x2e4d), opf, used, &roots)
 	var cx strings.Builder
 	cx.WriteString(`<?xml version="1.0" encoding="UTF-8"?>` + "\n" + `<container version="1.0" xmlns="urn:oasis:names:tc:opendocument:xmlns:container"><rootfiles>`)
 	for _, rf := range roots {
@@ -339,6 +342,7 @@ func genEPUB(r *hx.Rng) *pkg {
 			p.Decoys = append(p.Decoys, part{Tok: dtok, Name: dname})
 		}
 	}
+	p.writeRenditions(alts, opfDoc)
 	for _, d := range p.Declared {
 		if d.ID == "nav" {
 			continue
